@@ -51,6 +51,34 @@ fn main() {
             }
         }
     }
+    // response chains: the refusal must not depend on what follows (or precedes) the single-use value
+    for entry in [Entry::SomeCall, Entry::NextCall, Entry::EachCall] {
+        for first in [seg(Resp::Ret(1), Quant::Once), seg(Resp::Ret(1), Quant::N(2)), seg(Resp::AnsArc(2), Quant::Once), seg(Resp::RetDefault, Quant::Once)] {
+            for second in [
+                seg(Resp::Ret(3), Quant::Open),
+                seg(Resp::RetDefault, Quant::Open),
+                seg(Resp::AnsArc(4), Quant::Open),
+                seg(Resp::Ret(3), Quant::N(2)),
+                seg(Resp::Ret(3), Quant::Once),
+            ] {
+                for third in [None, Some(seg(Resp::Ret(5), Quant::Open))] {
+                    if third.is_some() && second.quant == Quant::Open {
+                        continue;
+                    }
+                    let mut segs = vec![first, second];
+                    segs.extend(third);
+                    cells.push(Config {
+                        partial: false,
+                        clauses: vec![ClauseSpec::Single {
+                            m: M::A,
+                            entry,
+                            pat: PatSpec { mask: 7, segs },
+                        }],
+                    });
+                }
+            }
+        }
+    }
     let mut refused = 0;
     let mut built = 0;
     for config in &cells {
